@@ -104,9 +104,29 @@ def impl(line):
             with open(p, "wb") as fh:
                 fh.write(b"".join(unhx(c) for c in f))
             paths.append(p)
+        # the documented argument forms: one path or several, `str` or `Path`; the definition as an object or as the
+        # path of its XTCE document (only when the document reads back as the same definition — C09's subject)
+        import pathlib, zlib
+        h = zlib.crc32(line.encode())
+        files_arg = paths if len(paths) > 1 or h % 2 else paths[0]
+        if h % 3 == 0:
+            files_arg = [pathlib.Path(p) for p in paths] if isinstance(files_arg, list) else pathlib.Path(files_arg)
+        def_arg = defn
+        if h % 4 == 0:
+            try:
+                from space_packet_parser.xtce import definitions
+                xp = os.path.join(td, "def.xml")
+                with warnings.catch_warnings():
+                    warnings.simplefilter("ignore")
+                    defn.write_xml(pathlib.Path(xp))
+                    back = definitions.XtcePacketDefinition.from_xtce(xp)
+                if sx(xser.definition(back)) == sx(xser.definition(defn)):
+                    def_arg = xp if h % 8 else pathlib.Path(xp)
+            except Exception:  # noqa: BLE001
+                def_arg = defn
         with warnings.catch_warnings():
             warnings.simplefilter("ignore")
-            ds = xarr.create_dataset(paths, defn, use_raw_values=raw)
+            ds = xarr.create_dataset(files_arg, def_arg, use_raw_values=raw)
     out = "dataset"
     for apid, d in ds.items():
         out += f" A {apid} {d.sizes.get('packet', 0)}"
